@@ -112,6 +112,7 @@ Definition w_xinit := [120;105;110;105;116].
 Definition w_xreads := [120;114;101;97;100;115].
 Definition w_xclear := [120;99;108;101;97;114].
 Definition w_xgrouploc := [120;103;114;111;117;112;108;111;99].
+Definition w_seterrno := [115;101;116;101;114;114;110;111].
 Definition w_xreadf := [120;114;101;97;100;102].
 Definition w_xwritef := [120;119;114;105;116;101;102].
 
@@ -336,7 +337,8 @@ Definition run_line (w : world) (ln : bytes) : world * list bytes * bool :=
           else if is_w cmd w_xgrouploc then (w, [[82;32;117;110;105;116]], false)   (* a global C++ locale: no effect on the library *)
           else run_line_c w ln
       | [cmd; a] =>
-          if is_w cmd w_xreads then x_io (run_line_c w (w_reads ++ [32] ++ a))
+          if is_w cmd w_seterrno then (w, [[82;32;117;110;105;116]], false)    (* the caller's errno: no effect on the library *)
+          else if is_w cmd w_xreads then x_io (run_line_c w (w_reads ++ [32] ++ a))
           else if is_w cmd w_xreadf then x_io (run_line_c w (w_readf ++ [32] ++ a))
           else if is_w cmd w_xwritef then x_io (run_line_c w (w_writef ++ [32] ++ a))
           else run_line_c w ln
